@@ -48,6 +48,15 @@ def _more3(check, na):
           TB + " Result::map semantics; parametricity.", "def-use linearity and path-set rules on the serde impls", "DESIGN.md 4/C17")
 
 
+def _more4(check, na):
+    check("C05", "translation_validation",
+          "The Layout expression reaching every raw alloc call is extracted from MIR (across the helper chain, parameters substituted per caller) and evaluated on the property's (header, element, length) shape matrix against the repr(C) layout of the block type the allocation is handed out and later freed as (Box<INNER<X>>); overflow must panic; same for the data offset used by from_raw; repr(C)/transparent facts; every block-pointer re-typing is between equal layouts on the matrix; free sites use the handle's own pointer; null-checked allocation. A disagreement comes with a concrete (H, T, len) witness. programs = allocation chains and re-typing casts; disagreements_checked = matrix cells evaluated.",
+          "Trusted base: std's documented Layout arithmetic and the repr(C) algorithm as re-implemented in analysis/layout.py; rustc MIR def-use; Box frees with the layout of its pointee type. The allocator's behaviour is not decided.", "layout-expression extraction from MIR + exhaustive evaluation on a shape matrix", "DESIGN.md 4/C05")
+    check("C11", "other",
+          "Each raw accessor is reduced (inlining resolved callees over MIR def-use) to a normal form over the handle's stored pointer; algebraic checks: as_ptr/into_raw denote the address Deref yields, agree with each other and with the arc-swap glue, compose with from_raw/from_raw_slice/from_raw_offset to the original block pointer via the offset lemma (validated on the layout matrix), OffsetArc/ArcBorrow store the value address, heap_ptr is the block start; data pointers are formed without going through &T; repr(transparent) facts and compile-time width/niche witnesses. One known finding listed in known_findings.json (ThinArc::as_ptr/into_raw return the block start).",
+          TB, "pointer normal-form analysis + compile-time layout witnesses", "DESIGN.md 4/C11, 6")
+
+
 _reg0 = register
 
 
@@ -56,3 +65,4 @@ def register(check, na):  # noqa: F811
     _more(check, na)
     _more2(check, na)
     _more3(check, na)
+    _more4(check, na)
